@@ -189,6 +189,7 @@ fn main() {
             policy: m.policy,
             dense: m.dense_variant.map(|v| p.variant == v).unwrap_or(false),
             final_timeout_ms: if args.thorough { 60000 } else { 10000 },
+            cross_check: args.thorough || std::env::var("SYMFROST_CROSS").is_ok(),
             ..RunCfg::default()
         };
         let body = || {
